@@ -611,7 +611,8 @@ func (k *Kernel) Fault(kind string) {
 // Violate records a violation found while the run proceeds.
 func (k *Kernel) Violate(clause, key, detail string) {
 	k.Viol = append(k.Viol, Violation{clause, key, detail})
-	k.trace("VIOLATION %s %s %s", clause, key, detail)
+	// the detail (stacks, addresses) is not part of the execution's identity
+	k.trace("VIOLATION %s %s", clause, key)
 }
 
 // Stop ends the run after the current step.
